@@ -226,6 +226,7 @@ class Sim:
         veriftrace.sink = sink
         self._observe_toggles(sink)
         self._observe_orchestrator(sink)
+        self._observe_observers(sink)
 
     @staticmethod
     def _observe_orchestrator(sink: Callable[[str, dict[str, Any]], None]) -> None:
@@ -259,6 +260,88 @@ class Sim:
             finally:
                 orchestration._verif_sink('orch.rest', {})
         orchestration.adjust_tasks = adjust_tasks
+
+    @staticmethod
+    def _observe_observers(sink: Callable[[str, dict[str, Any]], None]) -> None:
+        """Observe (never alter) the observers: every call of observation.revise_resources / revise_namespaces is reported with
+        what it was given (the scanned resources, the selectors of the registry by purpose, the namespace events and patterns) and
+        with the insights before and after it (`obs.res`, `obs.ns`): records for spec/Observation.tla."""
+        from kopf._cogs.structs import references
+        from kopf._core.reactor import observation
+        if getattr(observation, '_verif_observed', False):
+            observation._verif_sink = sink
+            return
+        observation._verif_observed = True
+        observation._verif_sink = sink
+        orig_res, orig_ns = observation.revise_resources, observation.revise_namespaces
+
+        def res_rec(r: Any) -> dict[str, Any]:
+            return {'group': r.group, 'version': r.version, 'plural': r.plural, 'kind': r.kind or '', 'singular': r.singular or '',
+                    'shortcuts': sorted(r.shortcuts), 'categories': sorted(r.categories), 'preferred': bool(r.preferred),
+                    'namespaced': bool(r.namespaced), 'verbs': sorted(r.verbs)}
+
+        def sel_rec(sel: Any, src: Any) -> dict[str, Any]:
+            nt, name = next(((k, getattr(sel, k)) for k in ('kind', 'plural', 'singular', 'shortcut', 'category') if getattr(sel, k) is not None), (None, None))
+            fnres: list[list[str]] = []
+            if nt is None and sel.fn is not None:
+                nt, name = 'fn', 'callable'
+                fnres = [[r.group, r.version, r.plural] for r in src if sel.fn(r)]
+            elif nt is None:
+                nt, name = ('everything', '*') if isinstance(sel.any_name, references.Marker) else ('any', sel.any_name)
+            return {'group': 'any' if sel.group is None else sel.group, 'version': 'any' if sel.version is None else sel.version,
+                    'nt': nt, 'name': name, 'fnres': fnres}
+
+        def sels(selectors: Any, src: Any) -> list[dict[str, Any]]:
+            out = [sel_rec(s_, src) for s_ in selectors]
+            return sorted(out, key=lambda d: json.dumps(d, sort_keys=True))
+
+        def snap(insights: Any) -> dict[str, Any]:
+            key = lambda d: (d['group'], d['version'], d['plural'])
+            return {k: sorted((res_rec(r) for r in getattr(insights, f'{k}_resources')), key=key) for k in ('webhook', 'indexed', 'watched')}
+
+        def revise_resources(*, group: Any, insights: Any, registry: Any, resources: Any) -> None:
+            before = snap(insights)
+            src = list(resources)
+            watched = (registry._indexing.get_all_selectors() | registry._watching.get_all_selectors() |
+                       registry._spawning.get_all_selectors() | registry._changing.get_all_selectors())
+            patched = registry._spawning.get_all_selectors() | registry._changing.get_all_selectors()
+            try:
+                return orig_res(group=group, insights=insights, registry=registry, resources=resources)
+            finally:
+                observation._verif_sink('obs.res', {'group': 'all' if group is None else group, 'src': sorted((res_rec(r) for r in src), key=lambda d: (d['group'], d['version'], d['plural'])),
+                                                    'webhooks': sels(registry._webhooks.get_all_selectors(), src), 'indexeds': sels(registry._indexing.get_all_selectors(), src),
+                                                    'watched': sels(watched, src), 'patched': sels(patched, src), 'before': before, 'after': snap(insights)})
+
+        def parse(pattern: Any) -> list[dict[str, Any]] | None:
+            if not isinstance(pattern, str):
+                return None
+            out = []
+            for g in [x.strip() for x in pattern.split(',')]:
+                neg = g.startswith('!'); g = g.lstrip('!')
+                if g == '*': kind, text = 'all', ''
+                elif g.endswith('*') and not any(ch in g[:-1] for ch in '*?['): kind, text = 'prefix', g[:-1]
+                elif g.startswith('*') and not any(ch in g[1:] for ch in '*?['): kind, text = 'suffix', g[1:]
+                elif not any(ch in g for ch in '*?['): kind, text = 'exact', g
+                else: return None
+                out.append({'neg': neg, 'kind': kind, 'text': [ord(c) for c in text]})
+            return out
+
+        def revise_namespaces(*, insights: Any, namespaces: Any, raw_events: Any = (), raw_bodies: Any = ()) -> None:
+            before = sorted(str(n) for n in insights.namespaces if n is not None)
+            evs = list(raw_events) + [{'type': None, 'object': o} for o in raw_bodies]
+            try:
+                return orig_ns(insights=insights, namespaces=namespaces, raw_events=raw_events, raw_bodies=raw_bodies)
+            finally:
+                pats = [parse(p) for p in namespaces]
+                if all(p is not None for p in pats) and None not in insights.namespaces:
+                    conds = lambda o: (o.get('status') or {}).get('conditions') or []
+                    observation._verif_sink('obs.ns', {
+                        'patterns': pats, 'before': before, 'after': sorted(str(n) for n in insights.namespaces if n is not None),
+                        'events': [{'name': e['object']['metadata']['name'], 'codes': [ord(c) for c in e['object']['metadata']['name']],
+                                    'type': e['type'] or 'NONE', 'marked': bool(e['object']['metadata'].get('deletionTimestamp')),
+                                    'hasconds': bool(conds(e['object'])), 'blocked': any(c.get('status') == 'True' for c in conds(e['object']))} for e in evs]})
+        observation.revise_resources = revise_resources
+        observation.revise_namespaces = revise_namespaces
 
     @staticmethod
     def insights_of(loop_name: str) -> dict[str, Any] | None:
